@@ -370,7 +370,9 @@ impl Exec {
                 let after_state = self.state_str();
                 self.oracle(idx, &data, &res, &calls, &before_state, &after_state, fault, o);
                 o.stat(&format!("result-{}", res.split('(').next().unwrap()));
-                format!("res={} ; calls={} ; {}", res, if calls.is_empty() { "-".to_string() } else { calls.join(",") }, after_state)
+                let dst: Vec<String> = calls.iter().filter(|c| c.starts_with("dS")).cloned().collect();
+                format!("res={} ; calls={} ; dst={} ; nc={} ; {}", res, if calls.is_empty() { "-".to_string() } else { calls.join(",") },
+                    if dst.is_empty() { "-".to_string() } else { dst.join(",") }, calls.len(), after_state)
             }
             "end" => {
                 // final store contents + contract verdict
@@ -792,8 +794,8 @@ pub fn gen_faults(seed: u64, thorough: bool, o: &mut Out) -> Vec<String> {
         let mut calls_per: Vec<usize> = vec![];
         for i in &seq {
             let a = ex.line(&format!("blk {} {}", i, hex(&s.block(*i))), &mut dummy);
-            let c = a.split(" ; ").nth(1).unwrap();
-            calls_per.push(if c == "calls=-" { 0 } else { c.matches(',').count() + 1 });
+            let c = a.split(" ; ").find(|p| p.starts_with("nc=")).unwrap();
+            calls_per.push(c[3..].parse().unwrap());
         }
         let mut points: Vec<(usize, usize)> = vec![];
         for (p, c) in calls_per.iter().enumerate() {
